@@ -39,6 +39,13 @@ Theorem calibrate_returns_sorted_history :
   forall Param Series LossV model lossf loss_leb rounds0 propose draws agent_actions plan n s s' r,
     calibrate Param Series LossV model lossf loss_leb rounds0 propose draws agent_actions plan n s = (s', None, r) ->
     r = sort_pairs Param LossV loss_leb (combine (params _ _ _ (live _ _ _ s')) (losses _ _ _ (live _ _ _ s'))).
-Proof. intros until r. unfold calibrate. intros H.
-  repeat match type of H with context [match ?x with _ => _ end] => destruct x eqn:? end; try discriminate;
-    injection H as <- <-; reflexivity. Qed.
+Proof. intros until r.
+  assert (Hpos : forall n s s' r, calibrate_pos Param Series LossV model lossf loss_leb rounds0 propose draws agent_actions plan n s = (s', None, r) ->
+            r = sort_pairs Param LossV loss_leb (combine (params _ _ _ (live _ _ _ s')) (losses _ _ _ (live _ _ _ s')))).
+  { clear. intros n s s' r. unfold calibrate_pos. intros H.
+    repeat match type of H with context [match ?x with _ => _ end] => destruct x eqn:? end; try discriminate;
+      injection H as <- <-; reflexivity. }
+  unfold calibrate. destruct n; [|apply Hpos].
+  destruct (calibrate_pos _ _ _ _ _ _ _ _ _ _ _ 0 s) as [[s0 e0] r0] eqn:E. unfold zero_ckpt.
+  destruct e0; [intros H; discriminate|].
+  destruct (c_saving _); [destruct (save _ _ _ _)|]; intros H; try discriminate; injection H as <- <-; cbn [live]; eapply Hpos; eauto. Qed.
